@@ -98,9 +98,14 @@ class PostgreSQLQueryBuilder(QueryBuilder):
                 self._insert_table,
                 self._update_table,
             }
-            join_tables = set(
+            # a USING join has no criterion: the joined item itself is a table of the statement
+            join_tables = {j.item for j in self._joins} | set(
                 itertools.chain.from_iterable(
-                    [j.criterion.tables_ for j in self._joins]  # type:ignore[attr-defined]
+                    [
+                        j.criterion.tables_  # type:ignore[attr-defined]
+                        for j in self._joins
+                        if getattr(j, "criterion", None) is not None
+                    ]
                 )
             )
             join_and_base_tables = set(self._from) | join_tables
